@@ -16,8 +16,8 @@ theorem C05_bitmap (s : List Nat) (i : Nat) (hi : i < 0x10000) :
 theorem C05_align (a : Nat) : roundupNat a 64 % 64 = 0 ∧ a ≤ roundupNat a 64 ∧ roundupNat a 64 < a + 64 := roundup64 a
 
 /-- title key: recovered from the ticket for every common key (given that AES decryption inverts encryption) -/
-theorem C05_titlekey (E D : Bytes → Bytes → Bytes) (hED : ∀ k b, D k (E k b) = b) (ck iv tk : Bytes)
-    (htk : tk.length = 16) (hiv : iv.length = 16) (hE : ∀ k b, (E k b).length = 16) :
+theorem C05_titlekey (E D : Bytes → Bytes → Bytes) (hED : ∀ k b, b.length = 16 → D k (E k b) = b) (ck iv tk : Bytes)
+    (htk : tk.length = 16) (hiv : iv.length = 16) (hE : ∀ k b, b.length = 16 → (E k b).length = 16) :
     Engine.cbcDecBlocks D ck iv (E ck (xorBytes tk iv)) = tk := titlekey_recovered E D hED ck iv tk htk hiv hE
 
 /-- the common key is the 3DS scrambler of KeyX[0x3D] and the indexed common KeyY (retail, and dev for index ≠ 0);
